@@ -13,7 +13,7 @@ Definition part_binder (p : slice_part) : list string :=
 Fixpoint stmt_binders (s : stmt) : list string :=
   match s with
   | SNop | SPanic _ => []
-  | SSimple _ _ _ _ | SCmp _ _ _ _ _ | SUnit _ _ _ _ | SRange _ _ _ _ | SLike _ _ _ _
+  | SSimple _ _ _ _ | SCmp _ _ _ _ _ | SUnit _ _ _ _ | SRange _ _ _ _ _ | SLike _ _ _ _
   | SClosure _ _ _ _ | SMapLen _ _ _ _ => []
   | SString _ _ _ _ _ => [name_str NTmp; name_str NActual]
   | SRegex _ _ _ _ => [name_str NRe]
@@ -24,7 +24,7 @@ Fixpoint stmt_binders (s : stmt) : list string :=
   | SSlice _ parts body _ => flat_map part_binder parts ++ flat_map stmt_binders body
   | SMapGet _ _ _ body _ => name_str NMapValue :: stmt_binders body
   | SSet _ preds _ _ =>
-      name_str NSetColl ::
+      name_str NSetSrc :: name_str NSetColl ::
       flat_map (fun x => x)
         (mapi (fun i pr => name_str (NSetPred i) :: name_str NSetIdx :: name_str NSetElem :: name_str NReport
                            :: stmt_binders pr) preds)
